@@ -1,5 +1,11 @@
 """Worker for C08: executes guard histories against the REAL runtime.guarded / add_guard /
-restore_guard, probing the guard triple around every region (the direct oracle)."""
+restore_guard, probing the guard triple around every region (the direct oracle).
+
+Every `G:` region builds ONE decorator object `dec = guarded(cond)` and ONE decorated function
+`f = dec(fn)`; the region is the call `f(body)`.  `R(` … `)` inside it is a call of that same `f`
+from within `fn` (recursion of a decorated function), `RS(` … `)` decorates another function with
+the same `dec` and calls it (one decorator object shared by caller and callee).  Both activate the
+decorator object again while it is active; the triple is probed around these activations too."""
 import sys, os
 sys.path.insert(0, os.path.dirname(os.path.abspath(__file__)))
 import worker as W
@@ -40,6 +46,8 @@ def parse(toks, pos=0):
             out.append(("raiseb",)); pos += 1
         elif t == "T(":
             body, pos = parse(toks, pos + 1); out.append(("try", body))
+        elif t in ("R(", "RS("):
+            body, pos = parse(toks, pos + 1); out.append(("reenter", "recursion" if t == "R(" else "shared", body))
         elif t.startswith(("G:", "A:")):
             _, k, c = t.split(":"); body, pos = parse(toks, pos + 1)
             out.append(("guarded" if t[0] == "G" else "raw", k, int(c[:-1]), body))
@@ -56,7 +64,37 @@ def cond(k, c):
     return PrivVal(c) if k == "L" else PrivValBool(c) if k == "B" else c
 
 
-def run(evs, p, bad):
+class Region:
+    """one `G:` region: its decorator object and the function it decorates"""
+
+    def __init__(self, label, cv, p, bad):
+        self.label = label
+        self.reentries = 0                  # activations of `dec` started while it was already active
+        self.dec = guarded(cv)              # ONE decorator object per region
+
+        def fn(evs, stk):                   # the decorated function; a `R(` inside `evs` calls `self.f` again
+            run(evs, p, bad, stk)
+        self.f = self.dec(fn)
+
+
+def probed(call, what, region, p, bad):
+    """run one activation entered through guarded(); whatever way it ends, the triple must be back"""
+    before = triple(p); ident = identity()
+    n0 = region.reentries
+    try:
+        call()
+    finally:
+        after = triple(p)
+        if after != before or identity() != ident:
+            k = region.reentries - n0
+            tag = "reentrant" if (k or what != "region") else "plain"
+            how = "" if what == "region" else f" [{what} of its active decorator]"
+            inner = f" [decorator re-entered {k}x while active]" if k else ""
+            same = " (same values, different objects)" if after == before else ""
+            bad.append(f"{tag}: after region {region.label}{how}{inner}: {after} (before: {before}){same}")
+
+
+def run(evs, p, bad, stk=()):
     for e in evs:
         if e[0] == "raise":
             raise Boom()
@@ -64,22 +102,29 @@ def run(evs, p, bad):
             raise BaseBoom()
         elif e[0] == "try":
             try:
-                run(e[1], p, bad)
+                run(e[1], p, bad, stk)
             except BaseException as x:
                 if isinstance(x, (SystemExit,)): raise
         elif e[0] == "guarded":
             cv = cond(e[1], e[2])           # may raise (non-boolean for B): before the region
-            before = triple(p); ident = identity()
-            try:
-                guarded(cv)(lambda: run(e[3], p, bad))()
-            finally:
-                after = triple(p)
-                if after != before or identity() != ident:
-                    bad.append(f"after region G:{e[1]}:{e[2]}: {after} (before: {before})")
+            r = Region(f"G:{e[1]}:{e[2]}", cv, p, bad)
+            inner = stk + (r,)
+            probed(lambda: r.f(e[3], inner), "region", r, p, bad)
+        elif e[0] == "reenter":
+            if not stk:                     # no enclosing guarded() region: nothing to re-enter
+                run(e[2], p, bad, stk)
+                continue
+            r = stk[-1]
+            r.reentries += 1
+            if e[1] == "recursion":         # the decorated function calls itself
+                probed(lambda: r.f(e[2], stk), "re-entry by recursion", r, p, bad)
+            else:                           # the same decorator object decorates the callee
+                callee = r.dec(lambda: run(e[2], p, bad, stk))
+                probed(callee, "re-entry by sharing", r, p, bad)
         elif e[0] == "raw":
             cv = cond(e[1], e[2])
             bak = add_guard(cv)
-            run(e[3], p, bad)
+            run(e[3], p, bad, stk)          # not a decorator: the innermost decorator stays the same
             restore_guard(bak)
         elif e[0] == "lt":
             PrivVal(e[1]) < PrivVal(e[2])
